@@ -31,7 +31,8 @@ def cases(draw, tier="quick"):
     k = draw(st.lists(st.integers(0, 3), min_size=1, max_size=4, unique=True))
     limit = draw(st.one_of(st.none(), st.integers(0, nlev - 1)))
     sched = dict(exec=[draw(st.lists(st.integers(0, 7), max_size=6)) for _ in range(nlev)])
-    return dict(spec=spec, pos=draw(slicegen.positions(nlev)), mode=mode, fields=k, limit=limit, sched=sched)
+    return dict(spec=spec, pos=draw(slicegen.positions(nlev)), mode=mode, fields=k, limit=limit, sched=sched,
+                cli=draw(st.sampled_from([False, False, False, True])))
 
 
 def compact(case):
@@ -84,6 +85,23 @@ def check_case(case, ctx):
                 pools.set_schedule(None)
     out = runs[(POISONS[0], True)]
     v = []
+    if case.get("cli"):
+        # the command line entry point, array format: the saved .npz must hold the arrays the API returns
+        import amr_kitchen.mandoline.cli as cli
+        from . import common
+        ctx.label("cli")
+        argv = ["mandoline", "src", "-n", str(cn), "-f", "array", "-o", "cli_out", "-V", "0", "-v"] + list(req)
+        argv += ["--position=" + repr(float(p))] if p is not None else []
+        argv += ["-L", str(limit)] if limit is not None else []
+        try:
+            common.run_main(cli.main, argv)
+            with np.load("cli_out.npz") as z:
+                saved = {k: z[k] for k in z.files}
+            for name in out_names + (["grid_level"] if do_grid else []) + ["x", "y"]:
+                if name not in saved or not refread.same_bits(np.asarray(saved[name], dtype="<f8"), np.asarray(out[name], dtype="<f8")):
+                    v.append(f"{name}: array saved by the command line differs from the returned array (argv {argv[1:]})")
+        except Exception as e:
+            v.append(f"mandoline command line raised {type(e).__name__}: {e} (argv {argv[1:]})")
     if p is None:
         p = (lo + hi) / 2
         if abs(float(out["slice_pos"]) - p) > 1e-12 * max(abs(lo), abs(hi), hi - lo):
